@@ -416,6 +416,10 @@ class AhocorasickTokenizer(Tokenizer):
 
     def __post_init__(self):
         """Set up helpers to narrow down possible extractors."""
+        # Position of each extractor in self.extractors
+        self._extractor_order = {
+            id(e): i for i, e in enumerate(self.extractors)
+        }
         # Build a set of all extractors that don't list required strings
         self.unfiltered_extractors = set(
             e for e in self.extractors if not e.strings
@@ -435,7 +439,7 @@ class AhocorasickTokenizer(Tokenizer):
             for s in e.strings
         )
 
-    def get_extractors(self, text: str) -> Set[TokenExtractor]:
+    def get_extractors(self, text: str) -> List[TokenExtractor]:
         """Override get_extractors() to filter out extractors
         that can't possibly match."""
         unique_extractors = set(self.unfiltered_extractors)
@@ -448,7 +452,13 @@ class AhocorasickTokenizer(Tokenizer):
                 text.lower()
             ):
                 unique_extractors.update(extractors)
-        return unique_extractors
+        # Run the selected extractors in the order of self.extractors, like
+        # the unfiltered Tokenizer does: the order decides which of two
+        # matches with the same span wins, and iterating the set directly
+        # would make that depend on hash randomisation.
+        return sorted(
+            unique_extractors, key=lambda e: self._extractor_order[id(e)]
+        )
 
     @staticmethod
     def make_ahocorasick_filter(
